@@ -541,6 +541,8 @@ def _const_of_parse_expression(e, where):
         v = ast.parse(e.args[0].value, mode='eval').body
     except SyntaxError:
         _fail(TP, where, 'erased default does not parse')
+    if isinstance(v, ast.Tuple) and not v.elts:
+        return 'EConstOther'
     if not isinstance(v, ast.Constant):
         _fail(TP, where, 'erased default %r is not a constant: it would be evaluated when the function is created'
               % e.args[0].value)
